@@ -643,20 +643,80 @@ class Job:
         self.extra_sources = list(extra_sources)
 
 
+def _prune_failing_kernels(job, wd, stderr, src):
+    """A kernel that no longer compiles against a changed tree must not take the whole TU down: blank the
+    K-definitions (or kernel-generating macro invocations) that the diagnostics point into, so that the
+    remaining kernels are still checked. Returns the list of (file, line) removed, or [] if nothing to do."""
+    import re
+    kdir = os.path.join(VERIF, "kernels")
+    hits = set()
+    for ln in stderr.split("\n"):
+        m = re.match(r"^(\S+?):(\d+):\d+: (?:error|fatal error|note: in instantiation|note: while substituting|note: in call|note: expanded)", ln)
+        if not m:
+            continue
+        f, line = m.group(1), int(m.group(2))
+        f = os.path.abspath(f)
+        if f == os.path.abspath(src) or f.startswith(kdir) or f.startswith(wd):
+            hits.add((f, line))
+    removed = []
+    byfile = {}
+    for f, line in hits:
+        byfile.setdefault(f, set()).add(line)
+    for f, lines in byfile.items():
+        txt = open(f).read().split("\n")
+        changed = False
+        for line in sorted(lines):
+            i = line - 1
+            if i >= len(txt):
+                continue
+            # walk back to the start of the top-level item
+            j = i
+            while j > 0 and not (txt[j].startswith("K ") or re.match(r"^[A-Z][A-Z0-9_]*\(", txt[j])):
+                j -= 1
+            if not (txt[j].startswith("K ") or re.match(r"^[A-Z][A-Z0-9_]*\(", txt[j])):
+                continue
+            if txt[j].startswith("K "):
+                depth, k, seen = 0, j, False
+                while k < len(txt):
+                    depth += txt[k].count("{") - txt[k].count("}")
+                    seen = seen or "{" in txt[k]
+                    txt[k] = "// pruned: " + txt[k][:60].replace("*/", "")
+                    if seen and depth <= 0:
+                        break
+                    k += 1
+            else:
+                # one macro invocation per '(...)' group on the line: drop the whole line
+                txt[j] = "// pruned: " + txt[j][:80]
+            removed.append((f, j + 1))
+            changed = True
+        if changed:
+            dst = f
+            if f.startswith(kdir):
+                dst = os.path.join(wd, os.path.basename(f))   # shadow copy found first on the include path
+            open(dst, "w").write("\n".join(txt))
+    return removed
+
+
 def compile_job(job, wd):
     src = os.path.join(wd, job.name + ".cpp")
     with open(src, "w") as f:
         f.write(job.source)
     ll = os.path.join(wd, job.name + ".ll")
     t0 = time.time()
-    cmd = [CXX] + IR_FLAGS + include_flags(job.flags) + [src, "-o", ll]
-    p = subprocess.run(cmd, capture_output=True, text=True)
-    if p.returncode != 0:
-        raise Inconclusive("kernel TU %s does not compile against the current tree:\n%s" % (job.name, p.stderr[-3000:]))
+    job.pruned = []
+    for attempt in range(6):
+        cmd = [CXX] + IR_FLAGS + ["-I", wd] + include_flags(job.flags) + [src, "-o", ll]
+        p = subprocess.run(cmd, capture_output=True, text=True)
+        if p.returncode == 0:
+            break
+        removed = _prune_failing_kernels(job, wd, p.stderr, src) if attempt < 5 else []
+        if not removed:
+            raise Inconclusive("kernel TU %s does not compile against the current tree:\n%s" % (job.name, p.stderr[-3000:]))
+        job.pruned += ["%s: %s" % (job.name, p.stderr[:600])]
     exe = None
     if job.want_native:
         obj = os.path.join(wd, job.name + ".o")
-        cmd = [CXX] + NATIVE_FLAGS + include_flags(job.flags) + ["-c", src, "-o", obj]
+        cmd = [CXX] + NATIVE_FLAGS + ["-I", wd] + include_flags(job.flags) + ["-c", src, "-o", obj]
         p = subprocess.run(cmd, capture_output=True, text=True)
         if p.returncode != 0:
             raise Inconclusive("native build of %s failed:\n%s" % (job.name, p.stderr[-3000:]))
@@ -682,6 +742,7 @@ def run_job(job):
     try:
         ll, exe, ct = compile_job(job, wd)
         res["compile_s"] = round(ct, 2)
+        res["pruned"] = getattr(job, "pruned", [])
         m = parse_module(open(ll).read())
         res["functions"] = sorted(f for f in m.funcs if "rlbox" in f)[:400]
         res["n_functions"] = len(m.funcs)
